@@ -33,6 +33,7 @@ type Task struct {
 	Ign   bool       `json:"ign,omitempty"`   // task-level ignore_error
 	Guard string     `json:"guard,omitempty"` // none platform requires enum precond prompt internal uptodate
 	VUse  string     `json:"vuse,omitempty"`  // where V reaches in a when_changed task: cmd (default) | env | sub
+	Label bool       `json:"label,omitempty"` // the task carries a label templated with the call variables (no effect on semantics)
 }
 
 type Root struct {
@@ -162,6 +163,9 @@ func (p *Program) Taskfile() string {
 		if t.Ign {
 			b.WriteString("    ignore_error: true\n")
 		}
+		if t.Label {
+			b.WriteString("    label: 'label {{.V}}-{{.W}}'\n")
+		}
 		switch t.guard() {
 		case "platform":
 			b.WriteString("    platforms: [windows/arm]\n")
@@ -169,6 +173,8 @@ func (p *Program) Taskfile() string {
 			b.WriteString("    platforms: [windows/arm]\n    requires: {vars: [REQ]}\n")
 		case "requires":
 			b.WriteString("    requires: {vars: [REQ]}\n")
+		case "requires2": // the first required variable is set, the second is missing
+			b.WriteString("    requires: {vars: [V, REQ]}\n")
 		case "enum":
 			b.WriteString("    requires: {vars: [{name: V, enum: [one]}]}\n")
 		case "precond":
